@@ -131,3 +131,35 @@ def models(sc: Script) -> dict[str, Callable]:
 
     return {"np.random.randint": randint_np, "random.randint": randint_py, "np.random.choice": choice_np, "random.choice": choice_py,
             "random.randrange": lambda a, b=None: randint_np(a, b)}
+
+
+class RandomScript(Script):
+    "choices drawn from a fixed linear congruential sequence: a reproducible sample of the runs that are too deep to enumerate"
+
+    def __init__(self, seed: int, max_choices: int = 400) -> None:
+        super().__init__(None)
+        self.x = (1103515245 * (seed + 12345) + 12345) % (1 << 31)
+        self.n = 0
+        self.max_choices = max_choices
+
+    def choose(self, n: int) -> int:
+        if n <= 0:
+            raise Unknown("choice among no alternatives")
+        self.n += 1
+        if self.n > self.max_choices:
+            raise Pruned()
+        self.x = (1103515245 * self.x + 12345) % (1 << 31)
+        return (self.x >> 12) % n
+
+
+def sample(run: Callable[[Script], Any], n_runs: int, seed: int = 0, max_choices: int = 400):
+    "yield the outcome of n_runs runs under pseudo-random (reproducible) choice sequences"
+    for k in range(n_runs):
+        sc = RandomScript(seed * 1000003 + k, max_choices)
+        try:
+            out = run(sc)
+        except EvalRaised as e:
+            out = e
+        except Pruned:
+            out = PRUNED
+        yield k, out
